@@ -315,14 +315,15 @@ func (s *c18Stats) run(it *corpusItem, mut string, b []byte, exempt bool) {
 			if p != "" {
 				fail = &c18Fail{Kind: "panic", Detail: p}
 			}
-		case <-time.After(3 * time.Second):
+		case <-time.After(map[bool]time.Duration{false: 3 * time.Second, true: time.Second}[exempt]):
 			if exempt {
 				s.Exempt++
 			} else {
 				fail = &c18Fail{Kind: "hang", Detail: "no result within 3 s"}
 			}
 		}
-		if fail == nil {
+		if fail == nil && !exempt {
+			// (an input whose iteration count was changed is exempt: the counter below adds up every allocation of every iteration)
 			// RSA / SM2 / KDF work behind a decoder allocates a few hundred KB whatever the input; the bound is linear in the input
 			if grown := allocBytes() - a0; grown > uint64(256*len(b)+(8<<20)) {
 				fail = &c18Fail{Kind: "memory", Detail: fmt.Sprintf("%d bytes allocated for a %d-byte input", grown, len(b))}
@@ -529,6 +530,46 @@ func c18run(args []string) error {
 				// first child only / without first child
 				if first := childEnd(nds, ni, cs); first > 0 {
 					repl = append(repl, orig[cs:first], orig[first:cs+nd.Len])
+				}
+			}
+			var ins [][]byte
+			var insInt []bool
+			if nd.Cons {
+				// an element the producer never writes - an OPTIONAL field, a further member - inserted at every position
+				// among the components (direct children are the nodes that start where the previous one ends)
+				var cuts []int
+				for p, k := cs, ni+1; p < cs+nd.Len && k < len(nds); {
+					cuts = append(cuts, p)
+					for k < len(nds) && nds[k].Tag-1 < p {
+						k++
+					}
+					if k >= len(nds) || nds[k].Tag-1 != p || nds[k].Len < 0 {
+						break
+					}
+					p = nds[k].LenOff - 1 + nds[k].LenSz + nds[k].Len
+					k++
+				}
+				cuts = append(cuts, cs+nd.Len)
+				extra := [][]byte{{0x02, 0x01, 0xff}, {0x02, 0x04, 0x80, 0x00, 0x00, 0x00}, {0x02, 0x05, 0x00, 0xff, 0xff, 0xff, 0xff},
+					{0x02, 0x09, 0x00, 0xff, 0xff, 0xff, 0xff, 0xff, 0xff, 0xff, 0xff}, {0x05, 0x00}, {0x04, 0x00}, {0x30, 0x00}, {0x01, 0x01, 0xff}}
+				seen := map[int]bool{}
+				for _, c := range cuts {
+					if seen[c] {
+						continue
+					}
+					seen[c] = true
+					for _, e := range extra {
+						ins = append(ins, append(append(append([]byte(nil), orig[cs:c]...), e...), orig[c:cs+nd.Len]...))
+						insInt = append(insInt, e[0] == 0x02)
+					}
+				}
+			}
+			for ri, r := range ins {
+				if m := rebuild(orig, nds, ni, r); m != nil {
+					// (in the password-based formats an inserted INTEGER may be read as the iteration count the format carries)
+					ex := inExempt(it, nd.Tag-1, cs+nd.Len) || (it.Class == "pkcs8enc" || it.Class == "pkcs12") && insInt[ri]
+					st.run(it, fmt.Sprintf("an element inserted among the components of the TLV at %d, lengths re-encoded", nd.Tag-1), m, ex)
+					perFamily["insert"]++
 				}
 			}
 			for _, r := range repl {
